@@ -9,6 +9,7 @@ import (
 	"github.com/evanw/esbuild/internal/ast"
 	"github.com/evanw/esbuild/internal/bundler"
 	"github.com/evanw/esbuild/internal/config"
+	"github.com/evanw/esbuild/internal/css_ast"
 	"github.com/evanw/esbuild/internal/fs"
 	"github.com/evanw/esbuild/internal/graph"
 	"github.com/evanw/esbuild/internal/helpers"
@@ -71,6 +72,12 @@ type VerifC10File struct {
 	Exports    []VerifC10Export // in SortedAndFilteredExportAliases order
 	ExportsRef [2]uint32
 	Symbols    []VerifC10Symbol // by inner index
+
+	// CSS side of code splitting
+	IsCSS       bool
+	CSSIndex    int32   // JSRepr.CSSSourceIndex or -1
+	PartRecords []int32 // JS: targets of the valid import records in part order (part.ImportRecordIndices)
+	CSSImports  []int32 // CSS: targets of the internal "@import" rules in rule order
 }
 
 type VerifC10ChunkImport struct {
@@ -91,6 +98,8 @@ type VerifC10Chunk struct {
 	ExportNames  []string
 	CrossKinds   []uint8 // crossChunkImports[i].importKind
 	CrossChunks  []uint32
+	CSSOrder     []uint32 // CSS chunk: source indices of importsInChunkInOrder entries of kind cssImportSourceIndex
+	CSSKinds     []uint8  // CSS chunk: kind of every importsInChunkInOrder entry
 }
 
 type VerifC10Dump struct {
@@ -120,11 +129,32 @@ func verifC10DumpFiles(c *linkerContext, dump *VerifC10Dump) {
 		out.Stable = c.graph.StableSourceIndices[sourceIndex]
 		out.Distance = file.DistanceFromEntryPoint
 		out.EntryBits = []byte(file.EntryBits.String())
+		out.CSSIndex = -1
+		if cssRepr, ok := file.InputFile.Repr.(*graph.CSSRepr); ok {
+			out.IsCSS = true
+			for _, rule := range cssRepr.AST.Rules {
+				if atImport, ok := rule.Data.(*css_ast.RAtImport); ok {
+					if record := &cssRepr.AST.ImportRecords[atImport.ImportRecordIndex]; record.SourceIndex.IsValid() {
+						out.CSSImports = append(out.CSSImports, int32(record.SourceIndex.GetIndex()))
+					}
+				}
+			}
+		}
 		repr, ok := file.InputFile.Repr.(*graph.JSRepr)
 		if !ok {
 			continue
 		}
 		out.IsJS = true
+		if repr.CSSSourceIndex.IsValid() {
+			out.CSSIndex = int32(repr.CSSSourceIndex.GetIndex())
+		}
+		for _, part := range repr.AST.Parts {
+			for _, importRecordIndex := range part.ImportRecordIndices {
+				if record := &repr.AST.ImportRecords[importRecordIndex]; record.SourceIndex.IsValid() {
+					out.PartRecords = append(out.PartRecords, int32(record.SourceIndex.GetIndex()))
+				}
+			}
+		}
 		out.Wrap = uint8(repr.Meta.Wrap)
 		out.ExportsRef = verifC10Pair(repr.AST.ExportsRef)
 		for _, record := range repr.AST.ImportRecords {
@@ -189,6 +219,14 @@ func verifC10DumpChunks(c *linkerContext, dump *VerifC10Dump) {
 		for _, ci := range chunk.crossChunkImports {
 			out.CrossKinds = append(out.CrossKinds, uint8(ci.importKind))
 			out.CrossChunks = append(out.CrossChunks, ci.chunkIndex)
+		}
+		if cssRepr, ok := chunk.chunkRepr.(*chunkReprCSS); ok {
+			for _, entry := range cssRepr.importsInChunkInOrder {
+				out.CSSKinds = append(out.CSSKinds, uint8(entry.kind))
+				if entry.kind == cssImportSourceIndex {
+					out.CSSOrder = append(out.CSSOrder, entry.sourceIndex)
+				}
+			}
 		}
 		chunkRepr, ok := chunk.chunkRepr.(*chunkReprJS)
 		if !ok {
